@@ -172,6 +172,10 @@ class VProcess:
         self._w.kill(self)
 
     def terminate(self):
+        # SIGTERM: obeys the disposition the worker inherited from the calling process
+        if self._w.sigterm_ignored:
+            self._w.events.append(("sigterm-ignored", self.idx))
+            return
         self._w.kill(self)
 
     def close(self):
@@ -204,7 +208,7 @@ class World:
     """one execution"""
 
     def __init__(self, prefix, cpu_count, wake_default=False, max_idle_wakes=None,
-                 clock_jump=None):
+                 clock_jump=None, sigterm_ignored=False):
         self.prefix = list(prefix)
         self.choices = []
         self.noptions = []
@@ -232,6 +236,9 @@ class World:
         # environment answer for code that polls the clock without sleeping (single-process
         # search): at every query the clock may jump ahead by clock_jump seconds (once)
         self.clock_jump = clock_jump
+        # environment: the calling process ignores (or handles without exiting) SIGTERM and its
+        # forked workers inherit that; SIGKILL cannot be ignored
+        self.sigterm_ignored = sigterm_ignored
         self.jumped = False
         self.queries_after_jump = 0
 
@@ -351,6 +358,9 @@ class World:
     def os_kill(self, pid, sig):
         for p in self.procs:
             if p.pid == pid:
+                if sig == signal.SIGTERM and self.sigterm_ignored:
+                    self.events.append(("sigterm-ignored", p.idx))
+                    return None
                 return self.kill(p)
         raise ProcessLookupError(pid)
 
@@ -381,7 +391,7 @@ def install(world, kd):
     names = ("Process", "Manager", "SimpleQueue", "Queue", "JoinableQueue", "cpu_count", "time",
              "os")
     saved = {k: getattr(kd, k) for k in names if hasattr(kd, k)}
-    for need in ("Process", "cpu_count", "time", "os"):
+    for need in ("Process", "cpu_count", "time"):
         if need not in saved:
             raise RuntimeError("kernel_dg no longer uses %s: the schedule explorer does not own "
                                "its concurrency primitives" % need)
@@ -394,16 +404,17 @@ def install(world, kd):
     kd.cpu_count = lambda: world.cpu_count
     kd.time = types.SimpleNamespace(time=world.time, sleep=world.sleep,
                                     perf_counter=world.time, monotonic=world.time)
-    real_os = saved["os"]
+    if "os" in saved:
+        real_os = saved["os"]
 
-    class _OS:
-        def __getattr__(self, name):
-            return getattr(real_os, name)
+        class _OS:
+            def __getattr__(self, name):
+                return getattr(real_os, name)
 
-        def kill(self, pid, sig):
-            return world.os_kill(pid, sig)
+            def kill(self, pid, sig):
+                return world.os_kill(pid, sig)
 
-    kd.os = _OS()
+        kd.os = _OS()
 
     def undo():
         for k, v in saved.items():
